@@ -34,6 +34,12 @@ STRENGTH = {
  "C17-d": "nested ranging over one stored Preorder value",
  "C19-d": "a second set of poslang expression objects shared by all node types with the same expression text",
  "C20-d": "texts of up to 400 (thorough 3 000) lines with every position resolved",
+ "C02-i": "names that differ from a pseudo-keyword only by Unicode case folding (U+017F, U+212A, dotless / dotted i), back-quoted in the keyword's place (C01, C02); the normal form of C02 itself now folds ASCII letters only (it used strings.EqualFold and would have shared the defect)",
+ "C05-i": "group swaps: runs of 2-3 tokens exchanged with the following run of 1-3 tokens, at every position of every systematic sentence and corpus file (near-miss workload)",
+ "C06-i": "C06 also judges every corpus statement and systematic sentence as the second element of a statement list",
+ "C08-i": "value-slot matrix: 94 expression forms (incl. field paths with reserved-word and digit-leading components) in 51 slots where the grammar allows any expression (C01, C02, C08)",
+ "C09-i": "open-then-broken family: 22 statements left open (brackets, constructors, look-ahead in progress) x 3 separators x 10 lexically malformed tokens x 3 heads, through the list and single entries (tree workload and C03)",
+ "C16-i": "trivia pool: comment bodies made of the characters that open and close comments (`/***/`, `/* c **/`, `/*/*/`, `--/*`, `#*/` ...)",
  "C03-h": "caught by a random token mutant only; C03 now also runs the sentences of grammar G (systematic set under three renderings + random) through their entry points",
  "C15-h": "long values: plain runs of 35 lengths (15 ... 70 001, around every power of two) x 3 fillers x 13 special units at the start, after the run and at the end",
  "C07-h": "C07 atoms that bring their own brackets or keywords (scalar / ARRAY / EXISTS sub-query, CASE, CAST, array literal, tuple): a parenthesis written around them is still a ParenExpr",
@@ -69,8 +75,8 @@ STRENGTH = {
 out = []
 out.append("## 11. Seeded changes and kill matrix\n")
 out.append("Every change below was written by a fresh sub-agent that saw only the text of one property and a scratch git\n"
-           "worktree of /repo (nothing from /verif), in eight rounds: (a) free choice, (b) a prescribed area of the code per\n"
-           "property, (c)-(h) \"make it survive generic property-based testing\" with an increasingly detailed description of what such testing does. Each was verified with\n"
+           "worktree of /repo (nothing from /verif), in nine rounds: (a) free choice, (b) a prescribed area of the code per\n"
+           "property, (c)-(i) \"make it survive generic property-based testing\" with an increasingly detailed description of what such testing does. Each was verified with\n"
            "`tools/mutant_verify.sh` (compiles, unedited suite passes, demonstration fails with the change and passes without)\n"
            "and is kept as `seeded/<name>/{patch.diff, mutant_demo_test.go, MUTANT.md, meta.json}`. \"caught by\" lists the\n"
            "checks whose **quick** command exits 1 on a scratch copy of /repo with the patch applied (`tools/killmatrix.sh`);\n"
